@@ -17,6 +17,7 @@ import sys
 
 from hypothesis import strategies as st
 
+from vlib import calib
 from vlib import history
 from vlib import simk
 from vlib.runner import Property
@@ -309,8 +310,10 @@ def live_tier(tier, seed, stats):
             signal.SIGFPE, signal.SIGILL, signal.SIGXCPU, signal.SIGVTALRM]
     n = 0
     for sig in sigs:
-        a = subprocess.Popen([sys.executable, "-c", "import time; time.sleep(60)"])
-        b = subprocess.Popen([sys.executable, "-c", "import time; time.sleep(60)"])
+        # (plain sleep binaries with default dispositions: neither Python's own
+        # handlers nor ignored signals inherited from the caller interfere)
+        a = subprocess.Popen(["sleep", "60"], preexec_fn=calib.default_signals)
+        b = subprocess.Popen(["sleep", "60"], preexec_fn=calib.default_signals)
         case = {"live_signal": int(sig)}
         try:
             p = psutil.Process(a.pid)
